@@ -353,11 +353,15 @@ fn mut_to(m: &Mutation) -> Value {
         Mutation::Tail { bytes } => json!({"tail": {"bytes_hex": hex(bytes)}}),
         Mutation::Version { v } => json!({"version": {"v": v.to_string()}}),
         Mutation::FixChecksum => json!("recompute_checksum"),
+        Mutation::Downgrade { v } => json!({"downgrade_to_version": v}),
     }
 }
 fn mut_from(v: &Value) -> R<Mutation> {
     if v.as_str() == Some("recompute_checksum") {
         return Ok(Mutation::FixChecksum);
+    }
+    if let Some(x) = v.get("downgrade_to_version") {
+        return Ok(Mutation::Downgrade { v: x.as_u64().ok_or("version")? });
     }
     if let Some(x) = v.get("subst") {
         return Ok(Mutation::Subst { pos: get_usize(x, "pos")?, val: get_u64(x, "val")? as u8 });
@@ -492,6 +496,7 @@ pub fn case_to(c: &Case) -> Value {
             "bufwriter_capacity": match m.bufcap { None => Value::Null, Some(c) => json!(c) },
             "checkpoint_every": m.every,
             "sink": shape_to(&Some((m.shape, 0))),
+            "one_extend_iter_call": m.bulk,
         }}),
         Case::FromIter(f) => json!({"from_iter": {"entry_point": f.entry.name(), "items": items_to(&f.items)}}),
         Case::MemRead(m) => json!({"mem_read": {
@@ -521,6 +526,7 @@ pub fn case_from(v: &Value) -> R<Case> {
             bufcap: opt(x, "bufwriter_capacity").map(|c| c.as_u64().unwrap_or(0) as usize),
             every: get_u64(x, "checkpoint_every")?,
             shape: shape_from(opt(x, "sink"))?.map(|s| s.0).unwrap_or(Shape::Random { short_16: 2, intr_16: 1 }),
+            bulk: x.get("one_extend_iter_call").and_then(|b| b.as_bool()).unwrap_or(false),
         }));
     }
     if let Some(x) = v.get("from_iter") {
